@@ -197,6 +197,51 @@ func genC14(g *Gen) {
 		e2.setDec("prev", randAny(g.r))
 		g.emit(e2)
 	})
+	// (total digit count) x (position of the only non-zero digit below a short leading part) x (leading digit): the
+	// reduction of a wide coefficient runs in stages (256, 192, 128 bits, 19 digits at a time, then single digits), each stage
+	// zero to several times, and every step must refuse a non-zero remainder -- also one left by an EARLIER step of the
+	// same stage.  The leading digits 1 / 6 / 7 / 9 put a 77-digit coefficient on both sides of 2^192 * 10^19 etc.
+	{
+		ds := []int{35, 36, 37, 38, 39, 40, 57, 58, 59, 60, 76, 77, 78, 79, 96, 97, 115, 116, 135, 154}
+		ps := []int{1, 2, 18, 19, 20, 21, 37, 38, 39, 40, 41, 57, 58, 59, 76, 77}
+		lead := []int64{1, 6, 7, 9}
+		g.gridRun(len(ds)*len(ps)*len(lead), 0.2, func(i int) {
+			D, p, l := ds[i%len(ds)], ps[(i/len(ds))%len(ps)], lead[i/(len(ds)*len(ps))]
+			if p >= D {
+				return
+			}
+			c := new(big.Int).Mul(big.NewInt(l), pow10(D-1))
+			if g.r.Intn(3) == 0 && D-p > 3 { // two more leading digits
+				c.Add(c, new(big.Int).Mul(big.NewInt(int64(g.r.Intn(100))), pow10(D-3)))
+			}
+			c.Add(c, new(big.Int).Mul(big.NewInt(int64(1+g.r.Intn(9))), pow10(p-1)))
+			exp := -D + g.r.Intn(5) - 2
+			if g.r.Intn(5) == 0 {
+				exp = []int{eMin, eMax}[g.r.Intn(2)] - (p - 1) + g.r.Intn(3) - 1
+			}
+			e := Ev{"op": "Compose", "form": 0, "neg": g.r.Intn(2) == 0, "sig": ints(c.Bytes()), "exp": exp}
+			e.setDec("prev", randAny(g.r))
+			g.emit(e)
+		})
+	}
+	// a power of ten (times 1, 3, 25) of up to 730 digits whose zeros compensate an exponent that far below the smallest one
+	// exactly (the value is then m * 10^-6176), one zero too few and one to spare; every length 35..130 and some beyond
+	{
+		var ks []int
+		for k := 35; k <= 130; k++ {
+			ks = append(ks, k)
+		}
+		ks = append(ks, 150, 192, 200, 255, 256, 289, 300, 301, 400, 500, 600, 722, 723)
+		g.gridRun(len(ks)*3, 0.12, func(i int) {
+			k := ks[i%len(ks)]
+			df := i/len(ks) - 1
+			m := []int64{1, 1, 3, 25}[g.r.Intn(4)]
+			c := new(big.Int).Mul(big.NewInt(m), pow10(k))
+			e := Ev{"op": "Compose", "form": 0, "neg": g.r.Intn(2) == 0, "sig": ints(c.Bytes()), "exp": eMin - k - df}
+			e.setDec("prev", randAny(g.r))
+			g.emit(e)
+		})
+	}
 	for !g.w.full() {
 		switch g.r.Intn(3) {
 		case 0:
